@@ -5,6 +5,7 @@ import (
 	"math/big"
 	"net"
 	"os"
+	"strings"
 	"sync"
 	"testing"
 
@@ -160,7 +161,14 @@ func (e *envT) install(t *testing.T, q *qos.SubscriberQoS, viaPolicy *radius.QoS
 	}
 	if viaPolicy != nil {
 		pm.AddPolicy(viaPolicy)
-		steps = append(steps, fmt.Sprintf("AddPolicy(%+v); SetSubscriberPolicy(%v,%s)", *viaPolicy, q.IP, viaPolicy.Name))
+		// other policies whose names are near misses of this one (case, surrounding blanks, prefix) with very different
+		// contracts: the policy named is the one that must be enforced
+		for _, dn := range []string{strings.ToUpper(viaPolicy.Name), " " + viaPolicy.Name + " ", viaPolicy.Name + "2", strings.Title(viaPolicy.Name)} {
+			if dn != viaPolicy.Name {
+				pm.AddPolicy(&radius.QoSPolicy{Name: dn, DownloadBPS: viaPolicy.DownloadBPS*1000 + 8000, UploadBPS: viaPolicy.UploadBPS*1000 + 8000, BurstSize: viaPolicy.BurstSize/2 + 9_000_000, Priority: 7})
+			}
+		}
+		steps = append(steps, fmt.Sprintf("AddPolicy(%+v) + 4 policies with near-miss names; SetSubscriberPolicy(%v,%s)", *viaPolicy, q.IP, viaPolicy.Name))
 		if err := mgr.SetSubscriberPolicy(q.IP, viaPolicy.Name); err != nil {
 			steps = append(steps, "error: "+err.Error())
 		}
